@@ -25,14 +25,17 @@ pub mod c20_snd;
 use crate::Ctx;
 pub fn run(prop: &str, ctx: &mut Ctx) -> bool {
     match prop {
-        "C06" => c06::run(ctx),
+        // C06 also at register level: what the MMIO transport programs into the device for a queue that is created, torn down
+        // and created again (stale address halves)
+        "C06" => { c06::run(ctx); c10::run_directed(ctx); }
         "C05" => { c05::run(ctx); c05_drv::run(ctx); }
         // C19 also covers the sound notification queue and the socket receive path (bytes delivered = bytes the packet holds)
         "C19" => { c19::run(ctx); c20_snd::run_notifications(ctx); c17::run_read_header(ctx); }
         "C07" => { c07::run(ctx); c13::run_device_chosen(ctx); c07_drv::run(ctx); }
         "C10" => c10::run(ctx),
         "C12" => c12::run(ctx),
-        "C11" => c11::run(ctx),
+        // C11 "every later operation accesses only those windows" includes device-configuration accesses (C13 bounds on PCI)
+        "C11" => { c11::run(ctx); c13::run_device_chosen(ctx); }
         "C01" | "C02" | "C03" | "C04" => {
             let n = ctx.budget(72, 12); qrig::standard_histories(ctx, &prop.to_lowercase(), n);
             if prop == "C03" && ctx.tier_thorough {
@@ -55,7 +58,7 @@ pub fn run(prop: &str, ctx: &mut Ctx) -> bool {
         "C18" => c18::run(ctx),
         "C17" => { c17::run(ctx); c18::run_multi(ctx); }
         "C09" => { c09::run(ctx); c20_gpu::run_backing(ctx); c20_snd::run_xfer(ctx); c10::run_directed(ctx); }
-        "C08" => c08::run(ctx),
+        "C08" => { c08::run(ctx); c05::run_modes(ctx); }
         "C20" => { c20_gpu::run(ctx); c20_misc::run(ctx); c20_snd::run(ctx); }
         _ => return false,
     }
